@@ -1,4 +1,4 @@
-CLAIM = False
+CLAIM = True
 from props.C01 import gp
 
 
